@@ -194,6 +194,11 @@ func main() {
 
 	for a := range conc.Ops {
 		for b := range conc.Ops {
+			// the full product of core and value-class operations; API-coverage operations by the pairing policy
+			if (conc.IsAPICoverage(conc.Ops[a].Name) || conc.IsAPICoverage(conc.Ops[b].Name)) && !conc.PairWanted(conc.Ops[a].Name, conc.Ops[b].Name) {
+				continue
+			}
+
 			name := conc.Ops[a].Name + " || " + conc.Ops[b].Name
 
 			for k := 0; k < reps; k++ {
